@@ -77,3 +77,13 @@ Fixpoint drive (fuel : nat) (t : ty) (st : acc_st) (window : list byte) (events 
   end.
 Definition drive_chunk (t : ty) (st : acc_st) (chunk : list byte) : res (acc_st * list feed_result) :=
   drive (2 * length chunk + 2) t st chunk [].
+
+(* a stream cut into chunks, each driven through the documented loop *)
+Fixpoint drive_all (t : ty) (st : acc_st) (chunks : list (list byte)) : res (acc_st * list feed_result) :=
+  match chunks with
+  | [] => Ok (st, [])
+  | c :: cs =>
+    let* '(st1, r1) := drive_chunk t st c in
+    let* '(st2, r2) := drive_all t st1 cs in
+    Ok (st2, r1 ++ r2)
+  end.
